@@ -307,6 +307,8 @@ Level8 == TLCGet("level") <= 8
 Level9 == TLCGet("level") <= 9
 OneArg == {0}
 OneConn == {"c1"}
+ModsB == {"mb"}
+ModsAzz == {"ma", "zz"}
 OrderAB == <<"A", "B">>
 OrderA == <<"A">>
 ModsAB == [A |-> {"ma"}, B |-> {"mb"}]          \* two nodes, one module each
